@@ -20,49 +20,7 @@ def run(ctx):
         kw = dict(bad_rate=0.03, empty_rate=0.0, observe_pairs=14, nvec=2)
         s2, _ = cc.e3(ctx, digital_rf, ctx.pick(30, 1200), **kw)
         s3, _ = cc.e3(ctx, digital_rf, ctx.pick(40, 1500), nd=2, nsessions=4, **kw)
-        # refusal-then-continue: a later session runs into a period finalized by an earlier one, is refused (once or
-        # twice), and must remain usable for the following free period
-        import os
-        import shutil
-        import numpy as np
-        from ..drivers import chan_drv as cd
-        from ..drivers import chan_gen as cg
-        s4 = []
-        rng = ctx.rng
-        for i in range(ctx.pick(16, 400)):
-            n, d, fc = cg.random_rate(rng, 300)
-            sc_ms = fc * rng.choice([1, 2, 5])
-            while sc_ms % 1000:
-                sc_ms += fc
-            t0 = (rng.randint(315532800, 4102444800) * 1000) // fc * fc
-            mode = ["gapped", "contU", "contC"][i % 3]
-            cfg = cd.ChanConfig(n, d, fc, sc_ms // 1000, np.dtype(rng.choice(["<i2", ">f4", "<u1", ">i8"])), bool(i % 2), 1 + i % 2, mode, t0, 6, seed=i)
-            root = os.path.join(ctx.work, "chan")
-            shutil.rmtree(root, ignore_errors=True)
-            os.makedirs(root)
-            ch = cd.Channel(digital_rf, root, cfg, [cfg.params()])
-            b = cfg.bound
-            k = rng.choice([2, 3])           # window finalized by session 1 (1-based)
-            ch.open(1, b[k - 1], 1)
-            ch.write([[b[k - 1], max(1, (b[k] - b[k - 1]) - rng.choice([0, 0, 1]))]])
-            ch.close()
-            s0 = b[k - 2] + rng.randint(0, b[k - 1] - b[k - 2] - 1)
-            ch.open(1, s0, 1)
-            if rng.random() < 0.7:
-                ch.write([[s0, b[k - 1] - s0 + rng.choice([1, 1, 2])]])   # contiguous into the finalized period: refused part-way
-            else:
-                ch.write([[s0, 1]])
-                ch.write([[b[k - 1], 1]])                                  # directly into the finalized period
-            for _ in range(rng.choice([0, 1, 1])):
-                ch.write([[b[k - 1] + rng.randint(0, b[k] - b[k - 1] - 1), 1]])   # a second attempt
-            a1 = b[k] + rng.choice([0, 0, 1]) * min(1, b[k + 1] - b[k] - 1)
-            n1 = rng.choice([1, 2])
-            ch.write([[a1, n1]])                                           # the next free period
-            ch.write([[max(b[k + 1], a1 + n1), 1]])
-            ch.close()
-            ch.observe([1], rng, npairs=6, nvec=1)
-            s4.append(ch.scenario("refusal%d" % i))
-            shutil.rmtree(root, ignore_errors=True)
+        s4 = cc.refusal_histories(ctx, digital_rf, ctx.pick(16, 400))
         ctx.extra["refusal_then_continue_histories"] = len(s4)
     scen = s1 + s2 + s3 + s4
     cc.account(ctx, scen, len(s1), WHAT)
